@@ -103,7 +103,7 @@ def build_coq(prop, log, tier="quick"):
         rc, out = sh("timeout 3000 make -j16 Props/%s.vo Extract.vo 2>&1" % prop, cwd=COQ, timeout=3100)
         log.append(out)
         if rc != 0:
-            m = re.search(r'File "([^"]+)", line (\d+)', out)
+            m = re.search(r'File "([^"]+)", line (\d+), characters [\d-]+:\s*\n\s*Error', out) or re.search(r'File "([^"]+)", line (\d+)', out)
             where = ("%s:%s" % (m.group(1), m.group(2))) if m else "make"
             return False, len(theorems), 0, [], ["coq build failed at " + where], out
         # re-run the Props file itself to collect Print Assumptions every time
